@@ -1,7 +1,7 @@
 use serde_json::Value;
 
 use crate::ConvertResult;
-use crate::lua_emitter::EmmyLuaEmitter;
+use crate::lua_emitter::{EmmyLuaEmitter, string_literal_type};
 use crate::markdown_doc::sanitize_description;
 use crate::schema_walker::SchemaWalker;
 
@@ -376,7 +376,7 @@ impl SchemaConverter {
                 .filter(|item| item.get("type").and_then(|v| v.as_str()) != Some("null"))
                 .map(|item| {
                     if let Some(const_val) = item.get("const").and_then(|v| v.as_str()) {
-                        format!("\"{}\"", const_val)
+                        string_literal_type(const_val)
                     } else {
                         self.resolve_type(walker, item)
                     }
@@ -437,14 +437,14 @@ impl SchemaConverter {
             let variants: Vec<String> = enum_values
                 .iter()
                 .filter_map(|v| v.as_str())
-                .map(|s| format!("\"{}\"", s))
+                .map(string_literal_type)
                 .collect();
             return variants.join(" | ");
         }
 
         // const
         if let Some(const_val) = schema.get("const").and_then(|v| v.as_str()) {
-            return format!("\"{}\"", const_val);
+            return string_literal_type(const_val);
         }
 
         "any".to_string()
@@ -726,6 +726,30 @@ mod tests {
                 .annotation_text
                 .contains("---@field item schema.list_item?")
         );
+    }
+
+    #[test]
+    fn test_string_values_with_quotes_or_line_breaks() {
+        let schema = json!({
+            "title": "Root",
+            "type": "object",
+            "properties": {
+                "mode": { "const": "two\nlines" }
+            },
+            "$defs": {
+                "Quote": {
+                    "enum": ["plain", "say \"hi\"", "it's \"both\"", "two\nlines"]
+                }
+            }
+        });
+
+        let output = converter().convert(&schema).annotation_text;
+        assert!(output.contains("---| \"plain\"\n"));
+        assert!(output.contains("---| 'say \"hi\"'\n"));
+        // Not expressible as a literal: falls back to the string type.
+        assert!(output.contains("---| string\n"));
+        assert!(!output.contains("both"));
+        assert!(output.contains("---@field mode string?\n"));
     }
 
     #[test]
